@@ -11,7 +11,7 @@ def F(clause, **detail):
 
 def pres_map(pres):
     """[[u,v,flat,[t..]]..] -> {(u,v): (flat, set(ts))}"""
-    return {(r[0], r[1]): (r[2], set(r[3])) for r in pres}
+    return {(r[0], r[1]): (r[2], set(r[3])) for r in pres if r[0] != "frac"}
 
 
 def is_err(x):
@@ -41,6 +41,9 @@ def c01(directed, ops, outcomes, pres, lo, hi):
     fails = []
     sp = replay_spec(directed, True, ops, outcomes, fails)
     pm = pres_map(pres)
+    for r in pres:
+        if r[0] == "frac":      # impl-side probe of the presence query at instants between two snapshot ids
+            fails.append(F("C01.fractional_instant_present", pair=[r[1], r[2]], instants=r[3]))
     ns = universe(sp, [99])
     for u in ns:
         for v in ns:
@@ -109,6 +112,8 @@ def approx(a, b, tol=1e-9):
 
 
 def c04(directed, q4, pres, lo, hi):
+    if isinstance(q4, str):
+        return [F("C04.cross_check", got=q4)]      # an impl-side cross check of op_q4
     fails = []
     pm = pres_map(pres)
     inhabited = sorted({x for (_, ts) in pm.values() for x in ts})
@@ -333,6 +338,9 @@ def c02(directed, q, pres, t, all_nodes, attrs, nbunch=None, ids=None):
         chk("nonnbrs@%d" % c, e["nonnbrs"], sorted(x for x in V if x != c and x not in und))
         chk("hasnode@%d" % c, e["hasnode"], 1 if (t is None or succ[c] or pred[c]) else 0)
         chk("deg1@%d" % c, e["deg1"], deg(c))
+        for k2 in ("f_deg1_differs", "f_inter1_differs"):
+            if k2 in e:
+                fails.append(F("C02.single_node_nbunch", t=t, node=c, what=k2, function_vs_method=e[k2]))
         if t is None and "snaps" in e:
             exp = sorted({x for (u, v), (_, ts) in pm.items() if u == c or v == c for x in ts if ids is None or x in ids})
             chk("snaps@%d" % c, e["snaps"], exp)
